@@ -911,4 +911,532 @@ theorem afterTopK_no_panic (o : Ops α) (P : Params α) (r : α) (L : List (Tok 
       rw [e, htp, hf]
     rw [hunf]; exact hpick
 
+/-! ### round 7: the heap branch of `topK` is a correct top-k (heap order of the `container/heap` mirror)
+
+  `HeapP h n lo`: every position `c < n` whose parent `(c-1)/2` is at least `lo` is not smaller
+  than its parent.  `down` restores it below a position whose two sub-heaps are in order
+  (`hdown_heap`), `up` restores it after an append (`hup_heap`); hence `Init` builds a heap,
+  `Pop` returns a minimum and leaves a heap, `Push` keeps a heap; the scan over the remaining
+  tokens keeps "heap ∪ dropped = seen, nothing dropped exceeds anything kept"; popping everything
+  yields an ascending list. -/
+
+/-- `a ≤ b` on tokens: `¬ b < a` -/
+def tle (o : Ops α) (a b : Tok α) : Prop := o.lt b.val a.val = false
+
+theorem tle_refl {o : Ops α} (h : OrdLaws o) (a : Tok α) : tle o a a := h.irrefl _
+theorem tle_trans {o : Ops α} (h : OrdLaws o) {a b c : Tok α} (hab : tle o a b) (hbc : tle o b c) :
+    tle o a c := h.nlt_trans hbc hab
+theorem tle_of_lt {o : Ops α} (h : OrdLaws o) {a b : Tok α} (hab : o.lt a.val b.val = true) :
+    tle o a b := h.asymm hab
+
+theorem hget_swap (o : Ops α) (h : Array (Tok α)) (i j x : Nat) (hi : i < h.size) (hj : j < h.size) :
+    hget o (h.swapIfInBounds i j) x =
+      if x = j then hget o h i else if x = i then hget o h j else hget o h x := by
+  simp only [hget, Array.swapIfInBounds_def, hi, hj, dite_true]
+  rw [Array.getElem?_swap]
+  by_cases h2 : x = j
+  · subst h2; simp [Array.getElem?_eq_getElem hi]
+  · by_cases h1 : x = i
+    · subst h1
+      have : ¬ j = x := fun e => h2 e.symm
+      simp [h2, this, Array.getElem?_eq_getElem hj]
+    · have a : ¬ j = x := fun e => h2 e.symm
+      have b : ¬ i = x := fun e => h1 e.symm
+      simp [h1, h2, a, b]
+
+theorem hdown_succ (o : Ops α) (n fuel : Nat) (h : Array (Tok α)) (i : Nat) :
+    hdown o n (fuel + 1) h i =
+      if 2 * i + 1 ≥ n then h else
+      if hless o h (if 2 * i + 1 + 1 < n ∧ hless o h (2 * i + 1 + 1) (2 * i + 1) = true then 2 * i + 1 + 1 else 2 * i + 1) i = true
+      then hdown o n fuel (h.swapIfInBounds i (if 2 * i + 1 + 1 < n ∧ hless o h (2 * i + 1 + 1) (2 * i + 1) = true then 2 * i + 1 + 1 else 2 * i + 1))
+        (if 2 * i + 1 + 1 < n ∧ hless o h (2 * i + 1 + 1) (2 * i + 1) = true then 2 * i + 1 + 1 else 2 * i + 1)
+      else h := by
+  simp only [hdown]
+  split
+  · rfl
+  · simp only [Bool.and_eq_true, decide_eq_true_eq]
+    split
+    · cases hless o h (2 * i + 1 + 1) i <;> simp
+    · cases hless o h (2 * i + 1) i <;> simp
+
+
+def HeapP (o : Ops α) (h : Array (Tok α)) (n lo : Nat) : Prop :=
+  ∀ c, 0 < c → c < n → lo ≤ (c - 1) / 2 → tle o (hget o h ((c - 1) / 2)) (hget o h c)
+
+theorem hdown_heap {o : Ops α} (ho : OrdLaws o) (n lo : Nat) : ∀ (fuel : Nat) (h : Array (Tok α)) (i : Nat),
+    n ≤ h.size → n ≤ i + fuel → lo ≤ i →
+    (∀ c, 0 < c → c < n → lo ≤ (c - 1) / 2 → (c - 1) / 2 ≠ i → tle o (hget o h ((c - 1) / 2)) (hget o h c)) →
+    (0 < i → lo ≤ (i - 1) / 2 → ∀ c, 0 < c → c < n → (c - 1) / 2 = i → tle o (hget o h ((i - 1) / 2)) (hget o h c)) →
+    HeapP o (hdown o n fuel h i) n lo := by
+  intro fuel
+  induction fuel with
+  | zero =>
+    intro h i hn hf hlo hA hB c hc0 hcn hcl
+    simp only [hdown]
+    by_cases hp : (c - 1) / 2 = i
+    · omega
+    · exact hA c hc0 hcn hcl hp
+  | succ fuel ih =>
+    intro h i hn hf hlo hA hB
+    rw [hdown_succ]
+    by_cases h1 : 2 * i + 1 ≥ n
+    · simp only [h1, if_true]
+      intro c hc0 hcn hcl
+      by_cases hp : (c - 1) / 2 = i
+      · omega
+      · exact hA c hc0 hcn hcl hp
+    · simp only [h1, if_false]
+      generalize hj : (if 2 * i + 1 + 1 < n ∧ hless o h (2 * i + 1 + 1) (2 * i + 1) = true then 2 * i + 1 + 1 else 2 * i + 1) = j
+      have hjfacts : j < n ∧ (j - 1) / 2 = i ∧ 0 < j ∧
+          (∀ c, 0 < c → c < n → (c - 1) / 2 = i → tle o (hget o h j) (hget o h c)) := by
+        by_cases hc : 2 * i + 1 + 1 < n ∧ hless o h (2 * i + 1 + 1) (2 * i + 1) = true
+        · rw [if_pos hc] at hj; subst hj
+          refine ⟨hc.1, by omega, by omega, ?_⟩
+          intro c hc0 hcn hcp
+          have : c = 2 * i + 1 ∨ c = 2 * i + 1 + 1 := by omega
+          rcases this with rfl | rfl
+          · exact tle_of_lt ho hc.2
+          · exact tle_refl ho _
+        · rw [if_neg hc] at hj; subst hj
+          refine ⟨by omega, by omega, by omega, ?_⟩
+          intro c hc0 hcn hcp
+          have : c = 2 * i + 1 ∨ c = 2 * i + 1 + 1 := by omega
+          rcases this with rfl | rfl
+          · exact tle_refl ho _
+          · have : hless o h (2 * i + 1 + 1) (2 * i + 1) = false := by
+              cases hl : hless o h (2 * i + 1 + 1) (2 * i + 1) with
+              | false => rfl
+              | true => exact absurd ⟨hcn, hl⟩ hc
+            exact this
+      obtain ⟨hjn, hjp, hj0, hjmin⟩ := hjfacts
+      by_cases hl : hless o h j i = true
+      · simp only [hl, if_true]
+        have hin : i < h.size := by omega
+        have hjs : j < h.size := by omega
+        have hij : ¬ i = j := by omega
+        apply ih
+        · rw [Array.size_swapIfInBounds]; exact hn
+        · omega
+        · omega
+        · intro c hc0 hcn hcl hcp
+          rw [hget_swap o h i j _ hin hjs, hget_swap o h i j _ hin hjs]
+          by_cases hpi : (c - 1) / 2 = i
+          · have e1 : ¬ (c - 1) / 2 = j := by omega
+            simp only [hpi, hij, if_false, if_true]
+            by_cases hcj : c = j
+            · subst hcj; simp only [if_true]; exact tle_of_lt ho hl
+            · have : ¬ c = i := by omega
+              simp only [hcj, this, if_false]
+              exact hjmin c hc0 hcn hpi
+          · have e1 : ¬ (c - 1) / 2 = j := hcp
+            simp only [e1, hpi, if_false]
+            by_cases hci : c = i
+            · subst hci
+              have : ¬ c = j := by omega
+              simp only [this, if_false, if_true]
+              exact hB hc0 hcl j hj0 hjn hjp
+            · have : ¬ c = j := by omega
+              simp only [this, hci, if_false]
+              exact hA c hc0 hcn hcl hpi
+        · intro _ _ c hc0 hcn hcp
+          rw [hget_swap o h i j _ hin hjs, hget_swap o h i j _ hin hjs]
+          have e1 : ¬ (j - 1) / 2 = j := by omega
+          have e2 : ¬ c = j := by omega
+          have e3 : ¬ c = i := by omega
+          simp only [hjp, hij, e2, e3, if_false, if_true]
+          have := hA c hc0 hcn (by omega) (by omega)
+          rw [hcp] at this; exact this
+      · simp only [hl, if_false]
+        intro c hc0 hcn hcl
+        by_cases hp : (c - 1) / 2 = i
+        · rw [hp]
+          have h1 : tle o (hget o h i) (hget o h j) := by
+            cases hv : hless o h j i with
+            | false => exact hv
+            | true => exact absurd hv hl
+          exact tle_trans ho h1 (hjmin c hc0 hcn hp)
+        · exact hA c hc0 hcn hcl hp
+
+
+theorem hup_succ (o : Ops α) (fuel : Nat) (h : Array (Tok α)) (j : Nat) :
+    hup o (fuel + 1) h j =
+      if (j - 1) / 2 = j ∨ hless o h j ((j - 1) / 2) = false then h
+      else hup o fuel (h.swapIfInBounds ((j - 1) / 2) j) ((j - 1) / 2) := by
+  simp only [hup, Bool.or_eq_true, beq_iff_eq, Bool.not_eq_true']
+
+theorem hup_heap {o : Ops α} (ho : OrdLaws o) (n : Nat) : ∀ (fuel : Nat) (h : Array (Tok α)) (j : Nat),
+    n ≤ h.size → j < n → j < fuel →
+    (∀ c, 0 < c → c < n → c ≠ j → tle o (hget o h ((c - 1) / 2)) (hget o h c)) →
+    (0 < j → ∀ c, 0 < c → c < n → (c - 1) / 2 = j → tle o (hget o h ((j - 1) / 2)) (hget o h c)) →
+    HeapP o (hup o fuel h j) n 0 := by
+  intro fuel
+  induction fuel with
+  | zero => intro h j _ _ hf; omega
+  | succ fuel ih =>
+    intro h j hn hjn hf hA hB
+    rw [hup_succ]
+    by_cases hstop : (j - 1) / 2 = j ∨ hless o h j ((j - 1) / 2) = false
+    · simp only [hstop, if_true]
+      intro c hc0 hcn _
+      by_cases hcj : c = j
+      · subst hcj
+        rcases hstop with h0 | hl
+        · omega
+        · exact hl
+      · exact hA c hc0 hcn hcj
+    · simp only [hstop, if_false]
+      have hj0 : 0 < j := by
+        rcases Nat.eq_zero_or_pos j with h0 | h0
+        · exact absurd (Or.inl (by omega)) hstop
+        · exact h0
+      have hl : hless o h j ((j - 1) / 2) = true := by
+        cases hv : hless o h j ((j - 1) / 2) with
+        | true => rfl
+        | false => exact absurd (Or.inr hv) hstop
+      generalize hi : (j - 1) / 2 = i at hl ⊢
+      have hij : i < j := by omega
+      have hin : i < h.size := by omega
+      have hjs : j < h.size := by omega
+      have hne : ¬ i = j := by omega
+      have hne' : ¬ j = i := by omega
+      have hji : tle o (hget o h j) (hget o h i) := tle_of_lt ho hl
+      apply ih
+      · rw [Array.size_swapIfInBounds]; exact hn
+      · omega
+      · omega
+      · intro c hc0 hcn hci
+        rw [hget_swap o h i j _ hin hjs, hget_swap o h i j _ hin hjs]
+        by_cases hcj : c = j
+        · subst hcj
+          simp only [hi, hne, if_false, if_true]
+          exact hji
+        · simp only [hcj, hci, if_false]
+          by_cases hp1 : (c - 1) / 2 = j
+          · simp only [hp1, if_true]
+            have := hB hj0 c hc0 hcn hp1
+            rw [hi] at this; exact this
+          · by_cases hp2 : (c - 1) / 2 = i
+            · simp only [hp2, hne, if_false, if_true]
+              have := hA c hc0 hcn hcj
+              rw [hp2] at this
+              exact tle_trans ho hji this
+            · simp only [hp1, hp2, if_false]
+              exact hA c hc0 hcn hcj
+      · intro hi0 c hc0 hcn hcp
+        rw [hget_swap o h i j _ hin hjs, hget_swap o h i j _ hin hjs]
+        have e1 : ¬ (i - 1) / 2 = j := by omega
+        have e2 : ¬ (i - 1) / 2 = i := by omega
+        have e3 : ¬ c = i := by omega
+        simp only [e1, e2, e3, if_false]
+        have hpi := hA i hi0 (by omega) (by omega)
+        by_cases hcj : c = j
+        · subst hcj
+          simp only [if_true]
+          exact hpi
+        · simp only [hcj, if_false]
+          have := hA c hc0 hcn hcj
+          rw [hcp] at this
+          exact tle_trans ho hpi this
+
+theorem heap_root_min {o : Ops α} (ho : OrdLaws o) (h : Array (Tok α)) (n : Nat) (hp : HeapP o h n 0) :
+    ∀ i, i < n → tle o (hget o h 0) (hget o h i) := by
+  intro i
+  induction i using Nat.strongRecOn with
+  | _ i ih =>
+    intro hi
+    rcases Nat.eq_zero_or_pos i with h0 | h0
+    · subst h0; exact tle_refl ho _
+    · exact tle_trans ho (ih ((i - 1) / 2) (by omega) (by omega)) (hp i h0 hi (Nat.zero_le _))
+
+/-- `down(i, n)` does not touch positions `≥ n` -/
+theorem hdown_get_ge (o : Ops α) (n : Nat) : ∀ (fuel : Nat) (h : Array (Tok α)) (i x : Nat),
+    n ≤ h.size → n ≤ x → hget o (hdown o n fuel h i) x = hget o h x := by
+  intro fuel
+  induction fuel with
+  | zero => intro h i x _ _; rfl
+  | succ fuel ih =>
+    intro h i x hn hx
+    rw [hdown_succ]
+    split
+    · rfl
+    · rename_i h1
+      generalize hj : (if 2 * i + 1 + 1 < n ∧ hless o h (2 * i + 1 + 1) (2 * i + 1) = true then 2 * i + 1 + 1 else 2 * i + 1) = j
+      have hjn : j < n ∧ i < j := by
+        split at hj <;> omega
+      split
+      · rw [ih _ _ _ (by rw [Array.size_swapIfInBounds]; exact hn) hx,
+          hget_swap o h i j x (by omega) (by omega)]
+        have e1 : ¬ x = j := by omega
+        have e2 : ¬ x = i := by omega
+        simp only [e1, e2, if_false]
+      · rfl
+
+
+theorem hdown_size (o : Ops α) (n fuel : Nat) (h : Array (Tok α)) (i : Nat) :
+    (hdown o n fuel h i).size = h.size := (hdown_perm o n fuel h i).size_eq
+
+/-- `heap.Init` establishes the heap order -/
+theorem hinit_heap {o : Ops α} (ho : OrdLaws o) (h : Array (Tok α)) :
+    HeapP o (hinit o h) h.size 0 := by
+  unfold hinit
+  simp only
+  generalize hn : h.size = n
+  have step : ∀ (m : Nat) (h0 : Array (Tok α)), h0.size = n → HeapP o h0 n m →
+      HeapP o ((List.range m).reverse.foldl (fun h i => hdown o n n h i) h0) n 0 := by
+    intro m
+    induction m with
+    | zero => intro h0 _ hp; simpa using hp
+    | succ m ih =>
+      intro h0 hs hp
+      rw [List.range_succ, List.reverse_append]
+      simp only [List.reverse_cons, List.reverse_nil, List.nil_append, List.cons_append, List.foldl_cons]
+      apply ih
+      · rw [hdown_size]; exact hs
+      · apply hdown_heap ho n m n h0 m (by omega) (by omega) (Nat.le_refl _)
+        · intro c hc0 hcn hcl hne
+          exact hp c hc0 hcn (by omega)
+        · intro hm0 hml; omega
+  apply step (n / 2) h hn
+  intro c hc0 hcn hcl
+  omega
+
+theorem hget_mem (o : Ops α) (h : Array (Tok α)) (i : Nat) (hi : i < h.size) : hget o h i ∈ h.toList := by
+  simp only [hget, Array.getElem?_eq_getElem hi, Option.getD_some]
+  exact Array.mem_toList_iff.2 (Array.getElem_mem hi)
+
+theorem mem_hget (o : Ops α) (h : Array (Tok α)) (y : Tok α) (hy : y ∈ h.toList) :
+    ∃ i, i < h.size ∧ y = hget o h i := by
+  obtain ⟨i, hi, rfl⟩ := Array.mem_iff_getElem.1 (Array.mem_toList_iff.1 hy)
+  exact ⟨i, hi, by simp [hget, Array.getElem?_eq_getElem hi]⟩
+
+/-- `heap.Pop` on a heap: returns the root (a minimum), leaves a heap with the other elements -/
+theorem hpop_heap {o : Ops α} (ho : OrdLaws o) (h : Array (Tok α)) (hs : 0 < h.size)
+    (hp : HeapP o h h.size 0) :
+    (hpop o h).1 = hget o h 0 ∧ (hpop o h).2.size = h.size - 1 ∧
+    HeapP o (hpop o h).2 (h.size - 1) 0 ∧ ((hpop o h).1 :: (hpop o h).2.toList).Perm h.toList := by
+  unfold hpop
+  simp only
+  generalize hn : h.size - 1 = n
+  have hnl : n < h.size := by omega
+  generalize hh1 : h.swapIfInBounds 0 n = h1
+  have h1s : h1.size = h.size := by rw [← hh1, Array.size_swapIfInBounds]
+  have h1get : ∀ x, hget o h1 x = if x = n then hget o h 0 else if x = 0 then hget o h n else hget o h x := by
+    intro x; rw [← hh1]; exact hget_swap o h 0 n x hs hnl
+  generalize hh2 : hdown o n n h1 0 = h2
+  have h2s : h2.size = h.size := by rw [← hh2, hdown_size, h1s]
+  have h2p : h2.Perm h := by
+    rw [← hh2, ← hh1]; exact (hdown_perm _ _ _ _ _).trans (swapIfInBounds_perm _ _ _)
+  have hx : hget o h2 n = hget o h 0 := by
+    rw [← hh2, hdown_get_ge o n n h1 0 n (by omega) (Nat.le_refl _), h1get]; simp
+  have hheap : HeapP o h2 n 0 := by
+    rw [← hh2]
+    apply hdown_heap ho n 0 n h1 0 (by omega) (by omega) (Nat.le_refl _)
+    · intro c hc0 hcn _ hne
+      rw [h1get, h1get]
+      have e1 : ¬ (c - 1) / 2 = n := by omega
+      have e2 : ¬ c = n := by omega
+      have e3 : ¬ c = 0 := by omega
+      simp only [e1, hne, e2, e3, if_false]
+      exact hp c hc0 (by omega) (Nat.zero_le _)
+    · intro h0; omega
+  refine ⟨hx, by simp [h2s, hn], ?_, ?_⟩
+  · intro c hc0 hcn hcl
+    have e : ∀ x, x < n → hget o h2.pop x = hget o h2 x := by
+      intro x hxn
+      simp only [hget]
+      rw [Array.getElem?_pop]
+      have : x < h2.size - 1 := by omega
+      simp [this]
+    rw [e _ (by omega), e _ hcn]
+    exact hheap c hc0 hcn hcl
+  · have hl : h2.toList = h2.pop.toList ++ [hget o h2 n] := by
+      have hlt : n < h2.size := by omega
+      have : hget o h2 n = h2[n] := by simp [hget, Array.getElem?_eq_getElem hlt]
+      rw [this]
+      have hne : h2.toList ≠ [] := by
+        intro e
+        have hlen : h2.toList.length = h2.size := Array.length_toList
+        rw [e] at hlen
+        simp only [List.length_nil] at hlen
+        omega
+      have hg : h2.toList.getLast hne = h2[n] := by
+        rw [List.getLast_eq_getElem]
+        simp only [Array.length_toList, Array.getElem_toList]
+        congr 1; omega
+      rw [Array.toList_pop, ← hg]
+      exact (List.dropLast_concat_getLast hne).symm
+    have h2l : h2.toList.Perm h.toList := Array.perm_iff_toList_perm.1 h2p
+    rw [hl] at h2l
+    exact (List.perm_append_comm (l₁ := [hget o h2 n]) (l₂ := h2.pop.toList)).trans h2l
+
+
+theorem hget_push_lt (o : Ops α) (h : Array (Tok α)) (x : Tok α) (i : Nat) (hi : i < h.size) :
+    hget o (h.push x) i = hget o h i := by
+  simp only [hget]
+  rw [Array.getElem?_push]
+  have : ¬ i = h.size := by omega
+  simp [this]
+
+/-- `heap.Push` on a heap gives a heap with one more element -/
+theorem hpush_heap {o : Ops α} (ho : OrdLaws o) (h : Array (Tok α)) (x : Tok α)
+    (hp : HeapP o h h.size 0) :
+    (hpush o h x).size = h.size + 1 ∧ HeapP o (hpush o h x) (h.size + 1) 0 ∧
+    (hpush o h x).toList.Perm (x :: h.toList) := by
+  refine ⟨(hpush_spec o h x).1, ?_, ?_⟩
+  · unfold hpush
+    simp only
+    have hsz : (h.push x).size = h.size + 1 := by simp
+    rw [hsz]
+    apply hup_heap ho (h.size + 1) (h.size + 1) (h.push x) (h.size + 1 - 1) (by omega) (by omega) (by omega)
+    · intro c hc0 hcn hne
+      rw [hget_push_lt o h x _ (by omega), hget_push_lt o h x _ (by omega)]
+      exact hp c hc0 (by omega) (Nat.zero_le _)
+    · intro hj0 c hc0 hcn hcp
+      omega
+  · unfold hpush
+    simp only
+    have := Array.perm_iff_toList_perm.1 (hup_perm o (h.push x).size (h.push x) ((h.push x).size - 1))
+    refine this.trans ?_
+    simp only [Array.toList_push]
+    exact List.perm_append_singleton _ _
+
+/-- popping everything from a heap yields its elements in ascending order -/
+theorem hpopAll_spec {o : Ops α} (ho : OrdLaws o) : ∀ (n : Nat) (h : Array (Tok α)), h.size = n →
+    HeapP o h n 0 →
+    (hpopAll o n h).Perm h.toList ∧ (hpopAll o n h).Pairwise (fun a b => tle o a b) := by
+  intro n
+  induction n with
+  | zero =>
+    intro h hs _
+    have : h.toList = [] := by
+      apply List.eq_nil_of_length_eq_zero
+      rw [Array.length_toList]; exact hs
+    simp [hpopAll, this]
+  | succ n ih =>
+    intro h hs hp
+    obtain ⟨hx, hsz, hheap, hperm⟩ := hpop_heap ho h (by omega) (by rw [hs]; exact hp)
+    have hn : h.size - 1 = n := by omega
+    rw [hn] at hsz hheap
+    obtain ⟨ip, iw⟩ := ih (hpop o h).2 hsz hheap
+    simp only [hpopAll]
+    refine ⟨(List.Perm.cons _ ip).trans hperm, ?_⟩
+    rw [List.pairwise_cons]
+    refine ⟨?_, iw⟩
+    intro y hy
+    have hy1 : y ∈ (hpop o h).2.toList := ip.mem_iff.1 hy
+    have hy2 : y ∈ h.toList := hperm.mem_iff.1 (List.mem_cons_of_mem _ hy1)
+    obtain ⟨i, hi, rfl⟩ := mem_hget o h y hy2
+    rw [hx]
+    exact heap_root_min ho h (n + 1) hp i (by omega)
+
+theorem topKHeap_loop {o : Ops α} (ho : OrdLaws o) (k : Nat) (hk : 0 < k) :
+    ∀ (todo : List (Tok α)) (h : Array (Tok α)) (rest done : List (Tok α)),
+    h.size = k → HeapP o h k 0 → (h.toList ++ rest).Perm done →
+    (∀ x ∈ rest, ∀ y ∈ h.toList, tle o x y) →
+    ∃ rest', (todo.foldl (fun h t => if o.lt (hget o h 0).val t.val then hpush o (hpop o h).2 t else h) h).size = k ∧
+      HeapP o (todo.foldl (fun h t => if o.lt (hget o h 0).val t.val then hpush o (hpop o h).2 t else h) h) k 0 ∧
+      ((todo.foldl (fun h t => if o.lt (hget o h 0).val t.val then hpush o (hpop o h).2 t else h) h).toList ++ rest').Perm (done ++ todo) ∧
+      (∀ x ∈ rest', ∀ y ∈ (todo.foldl (fun h t => if o.lt (hget o h 0).val t.val then hpush o (hpop o h).2 t else h) h).toList, tle o x y) := by
+  intro todo
+  induction todo with
+  | nil => intro h rest done hs hp hperm hdom; exact ⟨rest, hs, hp, by simpa using hperm, hdom⟩
+  | cons t todo ih =>
+    intro h rest done hs hp hperm hdom
+    simp only [List.foldl_cons]
+    have hmin : ∀ y ∈ h.toList, tle o (hget o h 0) y := by
+      intro y hy
+      obtain ⟨i, hi, rfl⟩ := mem_hget o h y hy
+      exact heap_root_min ho h k hp i (by omega)
+    have hassoc : done ++ t :: todo = (done ++ [t]) ++ todo := by simp
+    rw [hassoc]
+    by_cases hlt : o.lt (hget o h 0).val t.val = true
+    · simp only [hlt, if_true]
+      obtain ⟨hx, hsz, hheap, hpp⟩ := hpop_heap ho h (by omega) (by rw [hs]; exact hp)
+      have hk1 : h.size - 1 = k - 1 := by omega
+      obtain ⟨psz, pheap, pperm⟩ := hpush_heap ho (hpop o h).2 t (by rw [hsz]; exact hheap)
+      rw [hsz] at psz pheap
+      have hk2 : h.size - 1 + 1 = k := by omega
+      rw [hk2] at psz pheap
+      rw [hx] at hpp
+      have hmt : tle o (hget o h 0) t := tle_of_lt ho hlt
+      apply ih _ (hget o h 0 :: rest) (done ++ [t]) psz pheap
+      · -- permutation
+        have p1 : ((hpush o (hpop o h).2 t).toList ++ hget o h 0 :: rest).Perm
+            ((t :: (hpop o h).2.toList) ++ hget o h 0 :: rest) := List.Perm.append_right _ pperm
+        have p2 : ((hpop o h).2.toList ++ hget o h 0 :: rest).Perm (hget o h 0 :: ((hpop o h).2.toList ++ rest)) :=
+          List.perm_middle
+        have p3 : (hget o h 0 :: ((hpop o h).2.toList ++ rest)).Perm (h.toList ++ rest) := by
+          have := List.Perm.append_right rest hpp
+          simpa using this
+        have p4 : (t :: done).Perm (done ++ [t]) := (List.perm_append_singleton t done).symm
+        exact p1.trans ((List.Perm.cons t (p2.trans (p3.trans hperm))).trans p4)
+      · intro x hx' y hy
+        have hy' : y = t ∨ y ∈ (hpop o h).2.toList := by
+          have := pperm.mem_iff.1 hy
+          simpa using this
+        have hsub : ∀ z ∈ (hpop o h).2.toList, z ∈ h.toList := fun z hz =>
+          hpp.mem_iff.1 (List.mem_cons_of_mem _ hz)
+        rcases List.mem_cons.1 hx' with rfl | hxr
+        · rcases hy' with rfl | hy'
+          · exact hmt
+          · exact hmin y (hsub y hy')
+        · rcases hy' with rfl | hy'
+          · exact tle_trans ho (hdom x hxr _ (hget_mem o h 0 (by omega))) hmt
+          · exact hdom x hxr y (hsub y hy')
+    · have hlf : o.lt (hget o h 0).val t.val = false := by
+        cases hv : o.lt (hget o h 0).val t.val with
+        | false => rfl
+        | true => exact absurd hv hlt
+      simp only [hlf, Bool.false_eq_true, if_false]
+      apply ih h (t :: rest) (done ++ [t]) hs hp
+      · have p2 : (h.toList ++ t :: rest).Perm (t :: (h.toList ++ rest)) := List.perm_middle
+        exact p2.trans ((List.Perm.cons t hperm).trans (List.perm_append_singleton t done).symm)
+      · intro x hx' y hy
+        rcases List.mem_cons.1 hx' with rfl | hxr
+        · exact tle_trans ho hlf (hmin y hy)
+        · exact hdom x hxr y hy
+
+/-- **the heap branch of `topK` is a correct top-k**: the `k` largest tokens, in descending order -/
+theorem topKHeap_isTopK {o : Ops α} (ho : OrdLaws o) (k : Nat) (ts : List (Tok α)) (hk0 : 0 < k)
+    (hk : k < ts.length) : IsTopK o (k : Int) ts (topKHeap o k ts) := by
+  have hlen := (topKHeap_mem o k ts hk0 (by omega)).1
+  unfold topKHeap at hlen ⊢
+  simp only at hlen ⊢
+  have h0s : (hinit o (ts.take k).toArray).size = k := by
+    rw [(hinit_perm o (ts.take k).toArray).size_eq]; simp; omega
+  have h0h : HeapP o (hinit o (ts.take k).toArray) k 0 := by
+    have := hinit_heap ho (ts.take k).toArray
+    have e : (ts.take k).toArray.size = k := by simp; omega
+    rw [e] at this; exact this
+  have h0p : ((hinit o (ts.take k).toArray).toList ++ []).Perm (ts.take k) := by
+    have := Array.perm_iff_toList_perm.1 (hinit_perm o (ts.take k).toArray)
+    simpa using this
+  obtain ⟨rest, fs, fh, fp, fd⟩ := topKHeap_loop ho k hk0 (ts.drop k) _ [] (ts.take k) h0s h0h h0p
+    (by intro x hx; cases hx)
+  rw [List.take_append_drop] at fp
+  obtain ⟨pp, pw⟩ := hpopAll_spec ho k _ fs fh
+  refine ⟨?_, ?_, rest, ?_, ?_⟩
+  · rw [hlen]
+    have : ¬ ((k : Int) ≥ (ts.length : Int) ∨ (k : Int) ≤ 0) := by omega
+    simp only [this, if_false]
+    omega
+  · rw [List.pairwise_reverse]
+    exact pw
+  · exact (List.Perm.append_right rest ((List.reverse_perm _).trans pp)).trans fp
+  · intro x hx y hy
+    rw [List.mem_reverse] at hy
+    exact fd x hx y (pp.mem_iff.1 hy)
+
+/-- **`topK` as implemented is a correct top-k on BOTH branches, for every `k`** -/
+theorem topK_isTopK_all {o : Ops α} (ho : OrdLaws o) (k : Int) (ts : List (Tok α)) :
+    IsTopK o k ts (topK o k ts) := by
+  by_cases hk : k ≥ (ts.length : Int) ∨ k ≤ 0
+  · rw [topK_sort_branch o k ts hk]; exact topKSpec_isTopK ho k ts
+  · simp only [topK, hk, if_false]
+    have h1 : 0 < k.toNat := by omega
+    have h2 : k.toNat < ts.length := by omega
+    have := topKHeap_isTopK ho k.toNat ts h1 h2
+    have e : (k.toNat : Int) = k := by omega
+    rw [e] at this; exact this
+
 end OllamaVerif.Sampler
